@@ -474,11 +474,14 @@ class JSONPatch:
 
     def _ensure_pointer(self, path: Union[str, JSONPointer]) -> JSONPointer:
         if isinstance(path, str):
-            return JSONPointer(
-                path,
-                unicode_escape=self.unicode_escape,
-                uri_decode=self.uri_decode,
-            )
+            try:
+                return JSONPointer(
+                    path,
+                    unicode_escape=self.unicode_escape,
+                    uri_decode=self.uri_decode,
+                )
+            except JSONPointerError as err:
+                raise JSONPatchError(str(err)) from err
         assert isinstance(path, JSONPointer)
         return path
 
